@@ -2,7 +2,6 @@ package rux
 
 import (
 	"container/list"
-	"sync"
 )
 
 /*************************************************************
@@ -19,7 +18,7 @@ type cacheNode struct {
 type cachedRoutes struct {
 	size    int
 	list    *list.List
-	lock    *sync.RWMutex
+	lock    *verifRWMutex // an alias of sync.RWMutex unless built with the "verif" tag
 	hashMap map[string]*list.Element
 }
 
@@ -28,7 +27,7 @@ func NewCachedRoutes(size int) *cachedRoutes {
 	return &cachedRoutes{
 		size:    size,
 		list:    list.New(),
-		lock:    new(sync.RWMutex),
+		lock:    new(verifRWMutex),
 		hashMap: make(map[string]*list.Element),
 	}
 }
